@@ -32,6 +32,7 @@ RULE = ("case = (learn in on/off/ips/None, eval in on/ips/None, record subset of
         "to satisfy the mode's requirements; non-trivial = at least 2 interactions and (mode pair other than (on,on) or extra "
         "fields or batching); distinct = distinct canonical JSON of the case")
 ASSUMPTIONS = [
+    "logged propensities range from 1e-6 to 1 (log-uniform, plus a few round values); the IPS reward is exactly reward/probability however small the probability is - nothing in the docstring clips or floors it",
     "an evaluator object may be used for any number of evaluations (an Experiment shares one evaluator between all learner/environment pairs); what it requires of an environment is decided per evaluation, for the learner at hand",
     "a logged record whose 'probability' is None (LoggedInteraction's default for an unknown propensity) gets IPS weight 1 for that record only - coba divides by (probability or 1) per interaction in OpeRewards, DRReward and the VW label, and test_off_ips_actions_no_prob pins weight 1 for absent propensities; off-policy learn receives the None; a probability of 0 is not generated (nothing documents it)",
     "the reference evaluator encodes the SequentialCB docstring: on needs actions+rewards, off needs action+reward, ips needs actions+action+reward+probability and rewards the on-policy action with reward/probability if it equals the logged action else 0",
@@ -437,6 +438,11 @@ def context_value(kind, d):
     if kind == "dict": return {CTX_KEYS[(j + d(4)) % 4]: CTX_ATOMS[d(6)] for j in range(d(4))}
     raise ValueError(kind)
 
+def log_probability(d):
+    """a logged propensity: one of a few round values, or log-uniform between 1e-6 and 1 (rare actions get large IPS weights)"""
+    if d(2): return PROBS[d(len(PROBS))]
+    return 10 ** (-d(6001) / 1000)
+
 @st.composite
 def cases(draw, tier):
     pick = lambda xs: draw(st.sampled_from(xs))
@@ -510,7 +516,7 @@ def pairs(draw, tier, learn, eval_, score_style_logs):
             "rvals": [QUARTERS[d(len(QUARTERS))] for _ in range(nvals)], "argmax": d(4),
             "log_action": log_action, "log_reward": QUARTERS[d(len(QUARTERS))],
             # a record without propensity carries None (the default of LoggedInteraction); the first record more often
-            "log_prob": PROBS[d(len(PROBS))] if d(3 if not rows else 6) else None,
+            "log_prob": log_probability(d) if d(3 if not rows else 6) else None,
             "extras": {k: EXTRA_VALS[d(len(EXTRA_VALS))] for k in extras},
         })
     lazy = ckind in ("list", "dict") and coin()
@@ -541,6 +547,8 @@ def classes(case):
     else: out.append("accepted")
     if env["extras"]: out.append("extras")
     if env.get("lazy"): out.append("lazy-context")
+    if env["fields"]["probability"] and any(r["log_prob"] is not None and r["log_prob"] < 0.02 for r in env["rows"]):
+        out.append("propensity<0.02" + (":ips" if "ips" in (case["learn"], case["eval"]) else ""))
     if env["fields"]["probability"] and env["rows"]:
         nn = sum(1 for r in env["rows"] if r["log_prob"] is None)
         if 0 < nn < len(env["rows"]): out.append("mixed-None-propensities" + (":first-None" if env["rows"][0]["log_prob"] is None else ""))
